@@ -674,7 +674,10 @@ def proven_full_overwrite(F, ev, b, bi, t):
     import tab
     from rules_panic import nosite
     from rules_stats2 import base_alloc, dimval
-    env = Env(b)
+    # partial evaluation of the (merged) body itself: a `match` on a value whose variant is known here — e.g. the result
+    # of a selector closure that a shared helper received from this very function — takes only its feasible arm
+    env = ev.inline_env(b, {}, 0)
+    b = env.body
     alloc = ev.call_val(env, bi)
     a = alloc
     while a[0] == "call" and a[1].endswith("assume_init"):
